@@ -60,6 +60,9 @@ func randWorld(rnd *vlib.Rand) worldT {
 				if isZtunnelType(t) && rnd.Chance(10) {
 					v = 0 // AddressInfo without a content version: never skipped
 				}
+				if t == tAUTHZ {
+					v = 0 // workload Authorization resources carry no version
+				}
 				w[t] = append(w[t], resv{n, v})
 			}
 		}
@@ -132,7 +135,7 @@ func (g *gen) session(rnd *vlib.Rand, delta bool, fixed []Req, fixedKind int, fi
 	}
 	pool := []int{tCDS, tEDS, tCDS, tEDS, tLDS, tRDS, tSDS, tECDS, tNDS}
 	if delta {
-		pool = append(pool, tADDR, tWORKLOAD)
+		pool = append(pool, tADDR, tWORKLOAD, tAUTHZ, tAUTHZ)
 	}
 	for i := 0; i < nsteps; i++ {
 		var r Req
@@ -145,8 +148,20 @@ func (g *gen) session(rnd *vlib.Rand, delta bool, fixed []Req, fixedKind int, fi
 				t = vlib.Pick(rnd, pool)
 				known = e.wr(t) != nil
 			}
+			armed := false
+			if w := e.wr(tEDS); !delta && w != nil && w.Always && rnd.Chance(60) {
+				t, known, armed = tEDS, true, true
+			}
 			r = Req{Delta: delta, T: t, Err: -1}
-			if !known {
+			if armed {
+				// Envoy applied the CDS answer and re-sends its EDS subscription, with the cluster set it has now,
+				// on the nonce of the EDS answer of this stream
+				r.Nonce = lastNonce[tEDS]
+				r.Names = shuffle(rnd, subset(rnd, 4))
+				if len(r.Names) == 0 {
+					r.Names = []int{1 + rnd.Intn(6)}
+				}
+			} else if !known {
 				// a (re)subscription on the new stream with whatever the client retained
 				r.Nonce = rnd.Intn(4)
 				if rnd.Chance(6) {
@@ -205,6 +220,12 @@ func (g *gen) session(rnd *vlib.Rand, delta bool, fixed []Req, fixedKind int, fi
 				}
 			}
 		}
+		if w := e.wr(r.T); !r.Delta && w != nil && w.Always && r.Err < 0 && r.Nonce == w.Sent && r.Nonce != 0 && len(r.Names) > 0 {
+			tag("warming-resubscription")
+			if fmt.Sprint(r.Names) != fmt.Sprint(w.Names) {
+				tag("warming-resubscription-names-changed")
+			}
+		}
 		preKnown := e.wr(r.T) != nil
 		preEDS := e.wr(tEDS) != nil
 		var resps []Resp
@@ -248,6 +269,9 @@ func (g *gen) session(rnd *vlib.Rand, delta bool, fixed []Req, fixedKind int, fi
 			if len(resps) == 0 {
 				tag("first-unanswered")
 			}
+			if r.T == tAUTHZ {
+				tag("ztunnel-authz-reconnect")
+			}
 		} else if r.Err >= 0 {
 			tag("nack")
 		} else {
@@ -280,7 +304,7 @@ func (g *gen) session(rnd *vlib.Rand, delta bool, fixed []Req, fixedKind int, fi
 
 func (g *gen) witnesses() {
 	rnd := vlib.NewRand(5)
-	w := worldT{tCDS: {{1, 2}, {3, 1}}, tEDS: {{1, 1}, {3, 3}}, tLDS: {{2, 1}}, tRDS: {{4, 1}}, tADDR: {{1, 1}, {2, 2}}, tWORKLOAD: {{1, 1}, {2, 2}}}
+	w := worldT{tCDS: {{1, 2}, {3, 1}}, tEDS: {{1, 1}, {3, 3}}, tLDS: {{2, 1}}, tRDS: {{4, 1}}, tAUTHZ: {{1, 0}, {3, 0}}, tADDR: {{1, 1}, {2, 2}}, tWORKLOAD: {{1, 1}, {2, 2}}}
 	// SotW reconnect: EDS re-sent first with its old nonce, then CDS, then the EDS ACK must be answered
 	g.session(rnd, false, []Req{
 		{T: tEDS, Names: []int{1, 2}, Nonce: 3, Err: -1},
@@ -299,6 +323,26 @@ func (g *gen) witnesses() {
 		{Delta: true, T: tADDR, Names: []int{0}, Init: []resv{{1, 1}, {2, 1}, {3, 1}}, Nonce: 1, Err: -1},
 		{Delta: true, T: tWORKLOAD, Init: []resv{{1, 1}, {3, 2}}, Nonce: 0, Err: -1},
 	}, gPlain, w)
+	// SotW reconnect, EDS first with clusters a,b,c; CDS; the client drops b and c and re-sends EDS for a only
+	// (removal only), then for a,d (one added): both look like ACKs with changed names and must be answered in full
+	g.session(rnd, false, []Req{
+		{T: tEDS, Names: []int{1, 2, 3}, Nonce: 3, Err: -1},
+		{T: tCDS, Nonce: 2, Err: -1},
+		{T: tEDS, Names: []int{1}, Nonce: 1000, Err: -1},
+	}, gPlain, w)
+	g.session(rnd, false, []Req{
+		{T: tEDS, Names: []int{1, 2}, Nonce: 3, Err: -1},
+		{T: tCDS, Nonce: 2, Err: -1},
+		{T: tEDS, Names: []int{1, 3}, Nonce: 1000, Err: -1},
+	}, gPlain, w)
+	// ztunnel workload Authorization, wildcard: retained policies a, b, d; b and d were deleted meanwhile
+	g.session(rnd, true, []Req{
+		{Delta: true, T: tAUTHZ, Names: []int{0}, Init: []resv{{1, 0}, {2, 0}, {4, 0}}, Nonce: 2, Err: -1},
+	}, gPlain, w)
+	g.session(rnd, true, []Req{
+		{Delta: true, T: tAUTHZ, Init: []resv{{2, 0}, {3, 0}}, Nonce: 0, Err: -1},
+		{Delta: true, T: tAUTHZ, Nonce: 1000, Err: -1},
+	}, gNil, w)
 	// ECDS never removes
 	g.session(rnd, true, []Req{
 		{Delta: true, T: tECDS, Names: []int{1, 2}, Init: []resv{{2, 1}}, Nonce: 1, Err: -1},
